@@ -41,6 +41,7 @@ def rule_bound(ctx):
 
 def rule_nogrow(ctx):
     B.check_discard(ctx, "C11.NOGROW")
+    B.check_aux(ctx, "C11.AUX")
 
 
 RULES = [
